@@ -174,10 +174,16 @@ func checkC19(r *core.Run) {
 		if cb == nil {
 			r.Fail("R-C19-order", "defrag/load-before-repoint", p.Pos(df.Pos()), "the record-copying callback of defrag (calling loadrec) was not found")
 		} else {
+			// the value must be in memory before the record is pointed at the new file (loading goes by the old
+			// file number and position) and before it is appended there; whether the file number is set before
+			// or after the append does not matter (the append writes what is in memory)
 			c19Order(r, p, "R-C19-order", "defrag/load-before-repoint", cb, []c19Ev{
 				evCall("load the value from its current place", "(*lib/others/qdb.DB).loadrec", -1),
-				evCall("append it to the new data file", "(*lib/others/qdb.DB).addtolog", -1),
 				evStore("point the record at the new file", "lib/others/qdb.oneIdx.DataSeq"),
+			})
+			c19Order(r, p, "R-C19-order", "defrag/load-before-append", cb, []c19Ev{
+				evCall("load the value from its current place", "(*lib/others/qdb.DB).loadrec", -1),
+				evCall("append it to the new data file", "(*lib/others/qdb.DB).addtolog", -1),
 			})
 			c19Order(r, p, "R-C19-order", "defrag/load-before-new-position", cb, []c19Ev{
 				evCall("load the value from its current place", "(*lib/others/qdb.DB).loadrec", -1),
